@@ -21,6 +21,7 @@ class Check:
         self.assumptions = []
         self.infos = []
         self.extra = {}
+        self.prefix = ""    # key prefix of the current analysis pass (e.g. a second build configuration)
 
     # ---- declaring rules
     def rule(self, rid, text):
@@ -44,7 +45,7 @@ class Check:
         site: file:line for the reader. detail: dict/str explaining a failure (or the
         fact that discharged it)."""
         self.obls.append({
-            "rule": rule, "key": key, "ok": bool(ok), "what": what,
+            "rule": rule, "key": self.prefix + key, "base_key": key, "ok": bool(ok), "what": what,
             "site": site, "detail": detail, "trivial": trivial,
         })
         return bool(ok)
@@ -67,7 +68,7 @@ class Check:
         for o in self.obls:
             if o["ok"]:
                 continue
-            k = (self.pid, f'{o["rule"]}|{o["key"]}')
+            k = (self.pid, f'{o["rule"]}|{o["base_key"]}')
             if k in known:
                 knownhits.append((o, known[k]))
             else:
